@@ -19,6 +19,7 @@ claims = {
  "C03": ("translation_validation", "-O1/-O2 bytecode against -O0 bytecode on the VM for pointer-form AST templates with symbolic literals and a free variable of every runtime kind: z3 decides whether any literal value / runtime value makes the optimised program's outcome differ", "section 4 C03"),
  "C06": ("model_checking", "the real routeMiddlewares chain (authMiddleware, apiKeyMiddleware, denyAll, BasicAuthMiddleware with lockout) on symbolic credential sources and headers against an independently written credential predicate; lockout histories on a virtual clock", "section 4 C06"),
  "C07": ("model_checking", "the real ExecuteRoute input binding (ApplyTypeDefaults, ValidateObjectAgainstTypeDef, CheckType), ProcessQueryParams and the return-type check on symbolic JSON-shaped values against a contract predicate written from the property statement", "section 4 C07"),
+ "C18": ("model_checking", "symbolic source bytes through the real CanonicalizeSource (idempotence for every byte string in the bounds) and through the real Lexer before and after formatting (token sequence preserved); program templates with a symbolic identifier / symbolic line-leading symbol through the real ExpandSource, CompactSource, ExpandedLexer, Lexer and Parser with structural tree comparison", "section 4 C18"),
  "C10": ("model_checking", "symbolic byte buffers through the real bytecode loader and VM (step limit, allocation bound and termination as implicit assertions) and symbolic source bytes through the real lexer and parser", "section 4 C10"),
 }
 NA_REASON = {}
